@@ -81,8 +81,35 @@ impl<P: Problem> Component<P> for Block<P> {
     }
 
     fn execute(&self, problem: &P, state: &mut State<P>) -> ExecResult<()> {
+        #[cfg(mahf_verif)]
+        let mut child = 0;
         for component in &self.0 {
+            #[cfg(mahf_verif)]
+            crate::verif::notify(
+                crate::verif::StepEvent::BlockChild {
+                    before: true,
+                    block: self as *const Self as usize,
+                    child,
+                    component: component.as_ref(),
+                },
+                problem,
+                state,
+            );
             component.execute(problem, state)?;
+            #[cfg(mahf_verif)]
+            {
+                crate::verif::notify(
+                    crate::verif::StepEvent::BlockChild {
+                        before: false,
+                        block: self as *const Self as usize,
+                        child,
+                        component: component.as_ref(),
+                    },
+                    problem,
+                    state,
+                );
+                child += 1;
+            }
         }
         Ok(())
     }
@@ -197,8 +224,26 @@ impl<P: Problem> Component<P> for Loop<P> {
     fn execute(&self, problem: &P, state: &mut State<P>) -> ExecResult<()> {
         self.condition.init(problem, state)?;
         while self.condition.evaluate(problem, state)? {
+            #[cfg(mahf_verif)]
+            crate::verif::notify(
+                crate::verif::StepEvent::LoopPass {
+                    start: true,
+                    looop: self as *const Self as usize,
+                },
+                problem,
+                state,
+            );
             self.body.execute(problem, state)?;
             *state.try_borrow_value_mut::<common::Iterations>()? += 1;
+            #[cfg(mahf_verif)]
+            crate::verif::notify(
+                crate::verif::StepEvent::LoopPass {
+                    start: false,
+                    looop: self as *const Self as usize,
+                },
+                problem,
+                state,
+            );
         }
         Ok(())
     }
